@@ -140,5 +140,152 @@ theorem zipWith_hoomd (nd : ℕ) (f : List (Impl.HFrame K)) (dcd : List (List (L
       simp only [List.map_cons, List.zipWith_cons_cons, ih]
       rfl
 
+/-! ### the shared header of the auxiliary readers on an emitted orthogonal frame -/
+
+theorem mask_map_map {β γ : Type} (l : List β) (p : β → Bool) (g : β → γ) :
+    Impl.mask (l.map p) (l.map g) = (l.filter p).map g := by
+  induction l with
+  | nil => rfl
+  | cons a l ih =>
+    cases h : p a <;> simp [Impl.mask, h, ih]
+
+section frame
+variable (pr : K → Tok K) (hpr : ∀ x, toFloat (pr x) = .ok x) (f : FrameSpec K) (hwf : Lammps.Spec.WF f) (rest : Lines K)
+include hpr hwf
+
+theorem auxHeader_emit (nd : ℕ) (hnd : nd = 2 ∨ nd = 3) (htr : f.tric = false) (l : Line K) (ls : Lines K)
+    (hT : Lammps.Spec.emitFrame pr nd f ++ rest = l :: ls) :
+    Impl.auxHeader nd ls = .ok (f.timestep, f.atoms.length, (List.range nd).map (fun i => [f.lo i, f.hi i]),
+      [Tok.word "id", Tok.word "type"] ++ ((List.range nd).map fun i => Tok.word (Lammps.Spec.coordName f.style i)) ++ f.extraNames.map .word,
+      f.atoms.map (Lammps.Spec.atomLine pr nd) ++ rest) := by
+  have hn : ¬ ((f.atoms.length : Int) < 0) := by omega
+  rcases hnd with rfl | rfl
+  · simp [Lammps.Spec.emitFrame, Lammps.Spec.header, htr] at hT
+    obtain ⟨rfl, rfl⟩ := hT
+    simp [Impl.auxHeader, readline, pyInt, readBoxRows, fitRow, hpr, hn, range2]
+  · simp [Lammps.Spec.emitFrame, Lammps.Spec.header, htr] at hT
+    obtain ⟨rfl, rfl⟩ := hT
+    simp [Impl.auxHeader, readline, pyInt, readBoxRows, fitRow, hpr, hn, range3]
+
+theorem emitFrame_cons (nd : ℕ) : ∃ l ls, Lammps.Spec.emitFrame pr nd f ++ rest = l :: ls := by
+  cases h : f.tric <;> simp [Lammps.Spec.emitFrame, Lammps.Spec.header, h]
+
+theorem scaledNoOrigin_atomLine (nd : ℕ) (len : List K) (a : AtomSpec K) :
+    Impl.scaledNoOrigin nd len (Lammps.Spec.atomLine pr nd a) = .ok (Impl.mulRow ((List.range nd).map a.c) len) := by
+  unfold Impl.scaledNoOrigin
+  rw [sliceFloats_atomLine pr hpr nd a]
+  simp [fitRow_of_length]
+
+theorem readCenter_x (mol : ℤ → Option ℤ) (nd : ℕ) (hnd : nd = 2 ∨ nd = 3) (htr : f.tric = false) (hst : f.style = .x) :
+    Impl.readCenter nd mol (Lammps.Spec.emitFrame pr nd f ++ rest) = .ok (some (Spec.center nd mol f, rest)) := by
+  obtain ⟨l, ls, hT⟩ := emitFrame_cons pr hpr f hwf rest nd
+  have hh := auxHeader_emit pr hpr f hwf rest nd hnd htr l ls hT
+  rw [hT]
+  simp only [Impl.readCenter, hh, ok_bind]
+  rcases hnd with rfl | rfl
+  · have hra := readAtoms_emit pr 2 f.atoms.length (sliceFloats 2) (fun a => (List.range 2).map a.c)
+      (sliceFloats_atomLine pr hpr 2) (by simp) f.atoms (wf_range f hwf) rest (zeros 2 f.atoms.length)
+    rw [placed_zeros f hwf] at hra
+    simp [hst, Lammps.Spec.coordName, range2, hra, col, subList]
+    simp [mask_map_map, Spec.center, Spec.centerIds, Frame.mk.injEq, diag, range2, Function.comp_def]
+    intro k hk _
+    obtain ⟨a, _, _, ha⟩ := byId_some f hwf k hk
+    simp [Lammps.Spec.atId, ha, wrapRow, Lammps.Spec.cart, hst, htr, wrap_eq]
+  · have hra := readAtoms_emit pr 3 f.atoms.length (sliceFloats 3) (fun a => (List.range 3).map a.c)
+      (sliceFloats_atomLine pr hpr 3) (by simp) f.atoms (wf_range f hwf) rest (zeros 3 f.atoms.length)
+    rw [placed_zeros f hwf] at hra
+    simp [hst, Lammps.Spec.coordName, range3, hra, col, subList]
+    simp [mask_map_map, Spec.center, Spec.centerIds, Frame.mk.injEq, diag, range3, Function.comp_def]
+    intro k hk _
+    obtain ⟨a, _, _, ha⟩ := byId_some f hwf k hk
+    simp [Lammps.Spec.atId, ha, wrapRow, Lammps.Spec.cart, hst, htr, wrap_eq]
+
+theorem readCenter_xu (mol : ℤ → Option ℤ) (nd : ℕ) (hnd : nd = 2 ∨ nd = 3) (htr : f.tric = false) (hst : f.style = .xu) :
+    Impl.readCenter nd mol (Lammps.Spec.emitFrame pr nd f ++ rest) = .ok (some (Spec.center nd mol f, rest)) := by
+  obtain ⟨l, ls, hT⟩ := emitFrame_cons pr hpr f hwf rest nd
+  have hh := auxHeader_emit pr hpr f hwf rest nd hnd htr l ls hT
+  have hx := hasWord_map_word (α := K) "x" f.extraNames hwf.names.1
+  rw [hT]
+  simp only [Impl.readCenter, hh, ok_bind]
+  rcases hnd with rfl | rfl
+  · have hra := readAtoms_emit pr 2 f.atoms.length (sliceFloats 2) (fun a => (List.range 2).map a.c)
+      (sliceFloats_atomLine pr hpr 2) (by simp) f.atoms (wf_range f hwf) rest (zeros 2 f.atoms.length)
+    rw [placed_zeros f hwf] at hra
+    simp [hst, Lammps.Spec.coordName, range2, hra, col, subList, hx]
+    simp [mask_map_map, Spec.center, Spec.centerIds, Frame.mk.injEq, diag, range2, Function.comp_def,
+      Lammps.Spec.cart, hst]
+  · have hra := readAtoms_emit pr 3 f.atoms.length (sliceFloats 3) (fun a => (List.range 3).map a.c)
+      (sliceFloats_atomLine pr hpr 3) (by simp) f.atoms (wf_range f hwf) rest (zeros 3 f.atoms.length)
+    rw [placed_zeros f hwf] at hra
+    simp [hst, Lammps.Spec.coordName, range3, hra, col, subList, hx]
+    simp [mask_map_map, Spec.center, Spec.centerIds, Frame.mk.injEq, diag, range3, Function.comp_def,
+      Lammps.Spec.cart, hst]
+
+theorem readCenter_xs (mol : ℤ → Option ℤ) (nd : ℕ) (hnd : nd = 2 ∨ nd = 3) (htr : f.tric = false) (hst : f.style = .xs) :
+    Impl.readCenter nd mol (Lammps.Spec.emitFrame pr nd f ++ rest) = .ok (some (Spec.center nd mol f, rest)) := by
+  obtain ⟨l, ls, hT⟩ := emitFrame_cons pr hpr f hwf rest nd
+  have hh := auxHeader_emit pr hpr f hwf rest nd hnd htr l ls hT
+  have hx := hasWord_map_word (α := K) "x" f.extraNames hwf.names.1
+  have hxu := hasWord_map_word (α := K) "xu" f.extraNames hwf.names.2.2
+  rw [hT]
+  simp only [Impl.readCenter, hh, ok_bind]
+  rcases hnd with rfl | rfl
+  · have hra := readAtoms_emit pr 2 f.atoms.length
+      (Impl.scaledNoOrigin 2 [f.hi 0 - f.lo 0, f.hi 1 - f.lo 1])
+      (fun a => Impl.mulRow ((List.range 2).map a.c) [f.hi 0 - f.lo 0, f.hi 1 - f.lo 1])
+      (scaledNoOrigin_atomLine pr hpr f hwf 2 _) (by simp [range2, Impl.mulRow]) f.atoms (wf_range f hwf) rest
+      (zeros 2 f.atoms.length)
+    rw [placed_zeros f hwf] at hra
+    simp [hst, Lammps.Spec.coordName, range2, hra, col, subList, hx, hxu]
+    simp [mask_map_map, Spec.center, Spec.centerIds, Frame.mk.injEq, diag, range2, Function.comp_def]
+    intro k hk _
+    obtain ⟨a, _, _, ha⟩ := byId_some f hwf k hk
+    simp [Lammps.Spec.atId, ha, Impl.addRow, Impl.mulRow, Lammps.Spec.cart, hst, htr, sumRange, Lammps.Spec.hmat]
+    constructor <;> ring
+  · have hra := readAtoms_emit pr 3 f.atoms.length
+      (Impl.scaledNoOrigin 3 [f.hi 0 - f.lo 0, f.hi 1 - f.lo 1, f.hi 2 - f.lo 2])
+      (fun a => Impl.mulRow ((List.range 3).map a.c) [f.hi 0 - f.lo 0, f.hi 1 - f.lo 1, f.hi 2 - f.lo 2])
+      (scaledNoOrigin_atomLine pr hpr f hwf 3 _) (by simp [range3, Impl.mulRow]) f.atoms (wf_range f hwf) rest
+      (zeros 3 f.atoms.length)
+    rw [placed_zeros f hwf] at hra
+    simp [hst, Lammps.Spec.coordName, range3, hra, col, subList, hx, hxu]
+    simp [mask_map_map, Spec.center, Spec.centerIds, Frame.mk.injEq, diag, range3, Function.comp_def]
+    intro k hk _
+    obtain ⟨a, _, _, ha⟩ := byId_some f hwf k hk
+    simp [Lammps.Spec.atId, ha, Impl.addRow, Impl.mulRow, Lammps.Spec.cart, hst, htr, sumRange, Lammps.Spec.hmat]
+    refine ⟨by ring, by ring, by ring⟩
+
+/-- one emitted orthogonal frame, followed by anything, is read by the centre reader as exactly `Spec.center` -/
+theorem readCenter_emitFrame (mol : ℤ → Option ℤ) (nd : ℕ) (hnd : nd = 2 ∨ nd = 3) (htr : f.tric = false) :
+    Impl.readCenter nd mol (Lammps.Spec.emitFrame pr nd f ++ rest) = .ok (some (Spec.center nd mol f, rest)) := by
+  cases hst : f.style
+  · exact readCenter_x pr hpr f hwf rest mol nd hnd htr hst
+  · exact readCenter_xs pr hpr f hwf rest mol nd hnd htr hst
+  · exact readCenter_xu pr hpr f hwf rest mol nd hnd htr hst
+
+end frame
+
+/-- the wrapper loop over an emitted trajectory, for any per-frame reader that reads one emitted frame correctly -/
+theorem loopFuel_emit (pr : K → Tok K) (nd : ℕ) (step : Lines K → Except Err (Option (Frame K × Lines K)))
+    (out : FrameSpec K → Frame K) (P : FrameSpec K → Prop)
+    (hstep : ∀ f rest, P f → step (Lammps.Spec.emitFrame pr nd f ++ rest) = .ok (some (out f, rest)))
+    (hnil : step [] = .ok none) (fs : List (FrameSpec K)) (hP : ∀ f ∈ fs, P f) (fuel : ℕ)
+    (hfuel : (Lammps.Spec.emit pr nd fs).length < fuel) :
+    Impl.loopFuel step fuel (Lammps.Spec.emit pr nd fs) = .ok (fs.map out) := by
+  induction fs generalizing fuel with
+  | nil =>
+    obtain ⟨k, rfl⟩ : ∃ k, fuel = k + 1 := ⟨fuel - 1, by omega⟩
+    simp [Lammps.Spec.emit, Impl.loopFuel, hnil]
+  | cons f fs ih =>
+    obtain ⟨k, rfl⟩ : ∃ k, fuel = k + 1 := ⟨fuel - 1, by omega⟩
+    have h1 := hstep f (Lammps.Spec.emit pr nd fs) (hP f (by simp))
+    have hlen := emitFrame_length_pos pr nd f
+    have hk : (Lammps.Spec.emit pr nd fs).length < k := by
+      simp only [Lammps.Spec.emit, List.flatMap_cons, List.length_append] at hfuel ⊢
+      omega
+    have h2 := ih (fun g hg => hP g (by simp [hg])) k hk
+    simp only [Lammps.Spec.emit, List.flatMap_cons] at h1 h2 ⊢
+    simp [Impl.loopFuel, h1, h2]
+
 end field
 end Pms.AuxIo
